@@ -29,6 +29,13 @@ def get_zone(zid: str, provider=None):
 
     if zid.startswith("fixed:"):
         return DateTimeZone.for_offset(Offset.from_seconds(int(zid[6:])))
+    if zid.startswith("single:"):
+        # the library's own single-transition zone (pyoda_time.testing): "single:<day>:<second of day>:<offset before>:<offset after>"
+        from pyoda_time import Instant
+        from pyoda_time.testing.time_zones import SingleTransitionDateTimeZone
+
+        day, sod, before, after = (int(x) for x in zid[7:].split(":"))
+        return SingleTransitionDateTimeZone(Instant._ctor(days=day, nano_of_day=sod * 10**9), Offset.from_seconds(before), Offset.from_seconds(after), zid)
     return (provider or DateTimeZoneProviders.tzdb)[zid]
 
 
@@ -215,6 +222,7 @@ def map_events(args) -> list:
         back.append(b)
     ivs = list(reversed(back)) + [first_iv]
     stuck = []
+    kept = None
 
     def step():
         """The interval at the end of the last one; False when the zone answers with an interval that does not contain it."""
@@ -361,5 +369,33 @@ def map_events(args) -> list:
                             if moved.to_instant() not in {x.to_instant() for x in ([mm2.first(), mm2.last()] if mm2.count else [])}:
                                 back_ok = False
                 ev["back_ok"] = back_ok
+                # a mapping is a value: kept while other local times are mapped (this event made several more), it still says what it said
+                def summary(mp):
+                    out = [mp.count]
+                    for f in (lambda: idx_of(mp.early_interval), lambda: idx_of(mp.late_interval), lambda: _outcome(mp.first),
+                              lambda: _outcome(mp.last), lambda: _outcome(mp.single)):
+                        try:
+                            out.append(f())
+                        except Exception as e:  # noqa: BLE001
+                            out.append(type(e).__name__)
+                    return out
+
+                ev["kept_same"] = summary(m) == [ev["count"], ev["early"], ev["late"], ev["first"], ev["last"], ev["single"]]
+                if kept is not None:
+                    # ... and so does the one kept from the previous local time (another window: its indices are compared as recorded)
+                    pm, pwin_idx, psum = kept
+
+                    def idx_prev(x, pwin=pwin_idx):
+                        for j, w in enumerate(pwin):
+                            if w == x:
+                                return j + 1
+                        return -1
+
+                    try:
+                        now = [pm.count, idx_prev(pm.early_interval), idx_prev(pm.late_interval), _outcome(pm.first), _outcome(pm.last), _outcome(pm.single)]
+                    except Exception as e:  # noqa: BLE001
+                        now = [type(e).__name__]
+                    ev["kept_same"] = ev["kept_same"] and now == psum
+                kept = (m, list(win), [ev["count"], ev["early"], ev["late"], ev["first"], ev["last"], ev["single"]])
                 evs.append(ev)
     return evs
